@@ -71,6 +71,10 @@ def gen(rng, scenario, tier):
     if scenario == "stream":
         pool = S_UNI + S_Y + ["KdqTreeStreaming"] + (["PCACD"] if rng.random() < 0.25 else [])
         names = rng.sample(pool, rng.randint(2, min(5, len(pool))))
+        if rng.random() < 0.35:
+            names.append(rng.choice(names))     # the same class twice (other knobs / columns): instances must not share state
+        if rng.random() < 0.12 and "PCACD" not in names:
+            names += ["PCACD", "PCACD"]
     else:
         names = [rng.choice(B_ALL) for _ in range(rng.randint(2, 4))]
     members, sel = [], {}
